@@ -18,7 +18,10 @@ RULE = ("Programs generated as ASTs by construction: 1-2 base predicates (arity 
         "SLD interpreter computes the ordered list of solutions with duplicates; P(list) = total weight of the worlds "
         "producing it; compared with ProbLog's reported q_k([...]) instances in probability mode (zero entries "
         "dropped, list keys parsed structurally). Non-trivial: >= 2 relevant choices and >= 2 distinct result lists "
-        "with positive probability. Distinct = distinct program.")
+        "with positive probability. Distinct = distinct program. Failure signatures separate order-only, "
+        "multiplicity-only and probability differences; the suffixes '|node-order', '|leafless', '|nested-all' mark the "
+        "case classes of the known findings on findall's reconstruction of the list from proof nodes (computed from the "
+        "reference run in which every choice is possible).")
 ASSUMPTIONS = ["findall/3 keeps one list element per PROOF of a solution (test/findall_duplicates.pl: 0.3::p(a). "
                "0.2::p(b). 0.4::p(a). gives q([a, b, a]) 0.024), which is what SLD produces on the world's deterministic "
                "program; a probabilistic clause p::h :- b is the clause h :- b, choice (choice tested last)",
